@@ -68,7 +68,6 @@ partial def toTy (x : Sexp) : Option Ty :=
     else if t = s%"ptr" then (toTy a).map .ptr
     else if t = s%"slice" then (toTy a).map .slice
     else if t = s%"tparam" then (getStr a).map .tparam
-    else if t = s%"union" then none
     else toTyN x
   | _ => toTyN x
 
